@@ -173,7 +173,9 @@ def main():
             "replay_cmd_template": f"./check {pid} --replay {{path}}",
             "engine": "tlc+pbv",
             "level_claimed": {"category": "model_checking", "text": text, "design_ref": ref},
-            "level_note": note,
+            "level_note": note + " The scenario classes and clauses in force were extended repeatedly after independently written "
+                          "seeded changes were missed (DESIGN.md 9.3, 10): they are listed by the check's require_strata "
+                          "(a run that misses one fails as vacuous) and in its evidence file.",
             "technique": tech,
         })
     na = []
